@@ -59,13 +59,18 @@ def _lock():
     return f
 
 
-def lean_build(clean=False):
-    """incremental lake build of model, proofs and driver. Returns (ok, output)."""
+def lean_build(clean=False, files=None):
+    """incremental lake build of the model, the driver and the proof modules this property's obligations live in
+    (their imports come with them).  A proof of another property that no longer checks does not fail this one.
+    Returns (ok, output)."""
     lk = _lock()
     try:
         if clean:
             subprocess.run(["rm", "-rf", os.path.join(LEAN, ".lake", "build")], check=False)
-        p = subprocess.run(["lake", "build"], cwd=LEAN, stdout=subprocess.PIPE,
+        targets = []
+        if files:
+            targets = ["CircusModel", "circusdrv"] + [f[:-5].replace("/", ".") for f in files if f.endswith(".lean")]
+        p = subprocess.run(["lake", "build"] + targets, cwd=LEAN, stdout=subprocess.PIPE,
                            stderr=subprocess.STDOUT, text=True, timeout=1800)
         return p.returncode == 0, p.stdout
     finally:
@@ -389,11 +394,11 @@ def run_check(prop_id, tier, seed, replay=None):
         return run_replay(mod, prop_id, replay)
 
     # 1. proof obligations
-    ok, out = lean_build(clean=(tier == "thorough" and os.environ.get("VERIF_CLEAN_BUILD") == "1"))
+    files = list(mod.LEAN_PROPS) + list(getattr(mod, "LEAN_LEMMAS", []))
+    ok, out = lean_build(clean=(tier == "thorough" and os.environ.get("VERIF_CLEAN_BUILD") == "1"), files=files)
     build_note = ""
     if not ok:
         build_note = out[-3000:]
-    files = list(mod.LEAN_PROPS) + list(getattr(mod, "LEAN_LEMMAS", []))
     audit, audit_out = ({}, "")
     if ok:
         audit, audit_out = axiom_audit(prop_id, files)
